@@ -79,7 +79,7 @@ class Ctx(object):
             self.pool = ["pairA", "pairB", "real", "fake"][idx % 4]
         else:
             self.pool = ["real", "fake", "real"][idx % 3]
-        self.meta = ["builtin", "species", "override"][idx % 3] if self.pool == "real" else "species"
+        self.meta = ["builtin", "species", "override"][(idx // 3) % 3] if self.pool == "real" else "species"
         self.labels = POOLS[self.pool]
         nr, nrho = m["nr"], m["nrho"]
         # cutoff: dyadic step (binary floating point exact), decimal, integer
@@ -199,6 +199,11 @@ def species_meta(ctx, rank):
     mass = F(200 + rank) + F(1, 2)
     if ctx.pool == "real":   # full override of a known element
         lc, lt = F(4) + F(rank, 16), "bcc"
+        if (ctx.idx // 9) % 2 == 1:
+            # zero-valued overrides are overrides too (they must not fall back to the element table)
+            z = 0 if rank == 1 else z
+            mass = F(0) if rank == 2 else mass
+            lc = F(0) if rank >= 2 else lc
         lines = ["%s.atomic_number : %d" % (lab, z), "%s.atomic_mass : %s" % (lab, dec(mass)),
                  "%s.lattice_constant : %s" % (lab, dec(lc)), "%s.lattice_type : %s" % (lab, lt)]
         return (z, mass, lc, lt), lines
@@ -221,10 +226,14 @@ def render_ini(ctx, target_spelling=None, bad=None):
     """bad: None or (fn record, lim): that function fails (math domain error) at every abscissa > lim"""
     m = ctx.m
 
+    # every definition of the file may start with the SAME first range (never sampled: it ends at r = 0), so that anything the
+    # implementation remembers about a definition by its leading form and parameters alone shows
+    head = ">=-9 as.constant 7 " if (ctx.idx // 2) % 4 == 3 and bad is None else ""
+
     def IP(fn, flavour="analytic"):
         if bad is not None and fnkey(fn) == fnkey(bad[0]):
             return ini_poly(probe(fn), flavour, lim=bad[1])
-        return ini_poly(probe(fn), flavour)
+        return head + ini_poly(probe(fn), flavour)
     tgt = target_spelling or m["tgt"]
     L = ctx.L
     out = ["[Tabulation]", "target : %s" % tgt, "nr : %d" % m["nr"], "cutoff : %s" % dec(ctx.cutoff)]
@@ -307,8 +316,32 @@ class Sink(object):
         self.writes.append(s)
         return len(s)
 
+    def writelines(self, lines):
+        for ln in lines:          # pulled one at a time, as a real file object does: a failing generator leaves what came before
+            self.write(ln)
+
     def flush(self):
         pass
+
+    def writable(self):
+        return True
+
+    def readable(self):
+        return False
+
+    def seekable(self):
+        return False
+
+    closed = False
+
+    def close(self):
+        pass
+
+    def __enter__(self):
+        return self
+
+    def __exit__(self, *a):
+        return False
 
     def value(self):
         return (b"" if self.binary else "").join(self.writes)
